@@ -301,7 +301,8 @@ func (b *ASTBuilder) buildIfStatement(tsNode *sitter.Node) *Node {
 
 	// Get alternatives (else/elif) - there may be multiple with the same field name
 	// Tree-sitter can have both elif_clause and else_clause as "alternative"
-	var elifNode *Node
+	var elifNode *Node // head of the elif chain
+	var lastElif *Node // tail of the elif chain
 	var elseNode *Node
 
 	childCount := int(tsNode.ChildCount())
@@ -311,7 +312,14 @@ func (b *ASTBuilder) buildIfStatement(tsNode *sitter.Node) *Node {
 			alt := b.buildNode(child)
 			if alt != nil {
 				if alt.Type == NodeIf || alt.Type == NodeElifClause {
-					elifNode = alt
+					// Chain every elif clause onto the previous one so that none is lost
+					if elifNode == nil {
+						elifNode = alt
+					} else {
+						alt.Parent = lastElif
+						lastElif.Orelse = []*Node{alt}
+					}
+					lastElif = alt
 				} else if alt.Type == NodeElseClause {
 					elseNode = alt
 				}
